@@ -133,7 +133,7 @@ pub fn run(ctx: &Ctx) -> i32 {
         for (idx, (int, frac, exp, d, name)) in chain.iter().enumerate() {
             let res = parse_all(fmt, int, frac, *exp, "C09")?;
             stats.count(&format!("step:{name}"));
-            fp = gen::mix(fp ^ res[0] ^ gen::mix(*exp as u64 ^ ((int.len() as u64) << 32) ^ ((frac.len() as u64) << 48) ^ d.digits.iter().take(24).fold(0u64, |h, &x| h * 11 + x as u64)));
+            fp = gen::mix(fp ^ res[0] ^ gen::mix(*exp as u64 ^ ((int.len() as u64) << 32) ^ ((frac.len() as u64) << 48) ^ d.digits.iter().take(24).fold(0u64, |h, &x| h.wrapping_mul(11).wrapping_add(x as u64))));
             if let Some(pb) = prev_bits {
                 let (pint, pfrac, pexp, pd, _) = &chain[idx - 1];
                 let equal_value = pd.cmp(d) == Ordering::Equal;
